@@ -1,5 +1,5 @@
 """C18 — curves and piece assignment (DESIGN 4.C18)."""
-from vlib.core import Check
+from vlib.core import Check, guarded
 from pyvc.driver import verify_contracts, ENGINE_ASSUMPTIONS
 from pyvc import arrays, extio
 from contracts import common, curves
@@ -28,5 +28,5 @@ def run(tier, seed):
     from vlib import smt
     smt.close_pool()
     from bounded import curves_rt
-    curves_rt.run(chk, tier, seed)
+    guarded(chk, 'bounded part curves_rt.run', curves_rt.run, chk, tier, seed)
     return chk.finish()
